@@ -305,6 +305,9 @@ type c15Net struct {
 
 func (n *c15Net) bp(i int) *BeaconProcess {
 	dd := n.nodes[i].dd
+	if dd == nil {
+		return nil
+	}
 	dd.state.RLock()
 	defer dd.state.RUnlock()
 	return dd.beaconProcesses[n.beaconID]
@@ -844,7 +847,7 @@ func TestVF_C15(t *testing.T) {
 	if vfThorough() {
 		schemes = all
 	} else {
-		schemes = []string{all[int(seed)%3]}
+		schemes = []string{all[int(seed)%3], all[3+int(seed)%2]}
 	}
 	replay, doReplay := vfReplayCase()
 	for ci, schemeName := range schemes {
